@@ -419,6 +419,45 @@ func vfC14Loop(t *testing.T, s *vfutil.Session, c *vfLCase, src string) {
 		}
 		judge(replay(log), st, "same process, second StartPoint", len(log))
 		s.Count("loop_same_process_restart")
+		// ... and again after the root checkpoint moved forward under the same process: a full
+		// resynchronisation (ResetStartPoint as syncMeta calls it, then the root a completed snapshot
+		// replay writes), (a) with the in-memory offset a completed SendRdb leaves, (b) the root alone
+		// (written by another writer of the same namespace). The position is the new root: the
+		// in-memory frontier of the abandoned numbering is before the snapshot.
+		if st.ok && c.lanes == 1 {
+			ids := []string{vfLRid, "0000000000000000000000000000000000000000"}
+			newRoot := ends[len(ends)-1] + 1000 + int64(c.cutSeed%7)
+			variant := "root-only"
+			if c.cutSeed%2 == 0 {
+				variant = "completed-snapshot-replay"
+			}
+			ctx := context.Background()
+			err := ro.ResetStartPoint(ctx, ids)
+			if err == nil {
+				if variant == "completed-snapshot-replay" {
+					ro.bisyncOffset.Store(newRoot)
+				}
+				err = ro.setCheckpoint(ctx, vfLRid, newRoot, config.Version)
+			}
+			if err != nil {
+				s.Violate("loop-resync-bookkeeping-fails", err.Error(), rep(nil))
+			} else {
+				sp3, err3 := ro.StartPoint(ctx, ids)
+				txt := fmt.Sprintf("%s:%d/seq%d err=%v", sp3.RunId, sp3.Offset, ro.bisyncSeq.Load(), err3)
+				if ro.bisyncSeq.Load() != 0 {
+					s.Count("loop_same_process_new_root_keeps_numbering") // not a position matter: counted only
+				}
+				if err3 != nil || sp3.RunId != vfLRid || sp3.Offset != newRoot {
+					s.Violate("loop-same-process-resumes-before-new-root", fmt.Sprintf("after the loop (in-memory frontier %s) a full resynchronisation moved the root checkpoint to %d (%s); StartPoint of the same process: %s",
+						st.text, newRoot, variant, txt), rep(map[string]interface{}{"variant": variant, "new_root": newRoot, "start": txt}))
+				}
+				fr, _ := vfLRead(c, vfdoubles.ReplayWith(tg.LogCopy(), 0, true))
+				if !fr.ok || fr.off != newRoot {
+					s.Violate("loop-fresh-process-resumes-before-new-root", fmt.Sprintf("root checkpoint moved to %d by a full resynchronisation; a fresh process resumes at %s", newRoot, fr.text), rep(nil))
+				}
+				s.Count("loop_same_process_new_root_" + variant)
+			}
+		}
 	}
 	// crash points
 	r := vfutil.NewRand(c.cutSeed + 17)
